@@ -525,7 +525,7 @@ class Interp:
             if len(pj) == 1 and kind_of(pj[0])[0] == "Deref":
                 # reborrow `&*x` of a reference that is itself a model value (e.g. a chunk of <[T]>::chunks)
                 inner = st.store.get((fr.id, place["local"]))
-                if type(inner) is Md and inner.kind == "iter":
+                if type(inner) is Md and inner.kind in ("iter", "mslice"):
                     return inner
             try:
                 key, proj = self.resolve(st, fr, place)
